@@ -19,6 +19,12 @@ class OpaqueValue(Obj):
     def m_equals(self, I, args, n):
         return I.ctx.fresh("values_equal", "bool")
 
+    def m_has_value(self, I, args, n):
+        return I.ctx.fresh("value_present", "bool")
+
+    def m_schema(self, I, args, n):
+        return I.ctx.fresh("value_schema")
+
 
 class Observers:
     """const observers of time-series state the contracts do not track: arbitrary results, no effects"""
@@ -234,8 +240,11 @@ class EvaluateFeedbackSource(FeedbackKernel):
 
     def setup(self, I):
         self.base(I)
-        self.out = Obj("TSOutputView", "own_output")
-        self.state = Obj("ValueView", "own_state")
+        class OwnOutput(Observers, Obj):
+            cls = "TSOutputView"
+        self.out = OwnOutput(name="own_output")
+        self.state = StateView(name="own_state")       # observers of the output and of the state answer arbitrarily
+        self.state.m_schema = lambda I_2, a, n: I_2.ctx.fresh("state_schema")
         return None, {"view": self.view, "evaluation_time": self.T}
 
     def v_output(self, I, o, a, n):
